@@ -14,9 +14,24 @@ def jobs(tier, ctx):
     # arrays: a symbolic element pointer makes the copied type tag symbolic and forks the whole release code (no verdict
     # in 200 s), so array (size, index) pairs are concrete per run, including the boundary and 32-bit-truncation indices;
     # element values and everything else stay symbolic.  Strings and buffers above keep the index fully symbolic.
-    idx = [-1, 0, 1, 2, 4294967296] if tier == 'quick' else [-2147483649, -1, 0, 1, 2, 3, 2147483648, 4294967295, 4294967296, 4294967297, 4294967298, -4294967295, 9223372036854775807]
+    # (a) typed array blocks (hook VERIF_ARRAY_ITEMS, DESIGN corrections 14): the length is concrete per run, the index is split into
+    #     classes that together cover all of int64: every in-range position (concrete), all negative, all >= length (symbolic); an access outside 0..n-1 that does not raise an LPC error is reported by the index oracle (inside
+    #     the 8-element block it would not be a CBMC bounds failure)
+    for (op, rev) in (('F_INDEX', 0), ('F_RINDEX', 1)):
+        for ln in ((0, 2) if tier == 'quick' else (0, 1, 2, 3)):
+            # quick: the in-range positions and concrete out-of-range probes (the symbolic out-of-range classes cost 200 s / 11 GB
+            # each and run in C03's quick tier and in this property's thorough tier)
+            probes = [('i%s' % str(k).replace('-', 'm'), ['NUMK0=%dLL' % k]) for k in (-1, ln, ln + 1, 4294967296, 4294967296 + ln - 1, -4294967296)]
+            for (tag, d) in ([c for c in vm.index_classes(ln, rev) if c[0].startswith('pos')] + probes if tier == 'quick' else vm.index_classes(ln, rev)):
+                j = vm.step_job(ctx, 'step', op, ['NUM', 'ARRM'], oracle=['INDEXREF'], extra_defs=['LENK1=%d' % ln, 'INDEXREF_REVERSE=%d' % rev] + d, tag='typed.len%d.%s' % (ln, tag), typed_arrays=8, mem=(11 if tag in ('below', 'above') else 4))
+                if j:
+                    j['opt_witness'] = j['opt_witness'] + ['index_in_range', 'index_out_of_range']
+                    out.append(j)
+    # (b) byte-block arrays from the real allocator (struct hack as the driver allocates it: CBMC bounds failures are exact),
+    #     concrete (size, index) pairs including the boundary and 32-bit-truncation indices; thorough tier (14 GB, ~5 min each)
+    idx = [] if tier == 'quick' else [-2147483649, -1, 0, 1, 2, 2147483648, 4294967296, 4294967297, 9223372036854775807]
     for op in ('F_INDEX', 'F_RINDEX'):
-        for ln in ((2,) if tier == 'quick' else (0, 1, 2, 3)):
+        for ln in ((2,) if tier == 'quick' else (1, 2)):
             for k in idx:
                 add(op, ['NUM', 'ARRM'], extra_defs=['NUMK0=%dLL' % k, 'LENK1=%d' % ln], tag='len%d.i%s' % (ln, str(k).replace('-', 'm')))
     # element lvalues (a[i] = ..., a[<i] = ...): the index stays fully symbolic (no element is read by these opcodes)
